@@ -359,6 +359,7 @@ var timeF = map[string]int64{"ns": 1, "us": 1000, "ms": 1000000, "s": 1000000000
 type labelSpec struct {
 	sizeUnit string // unit of key "size" profile-wide (bytes family)
 	durUnit  string // unit of key "dur" profile-wide (time family)
+	seconds  []int64 // whole-second values present in nanosecond "dur" labels
 }
 
 // base value of a numeric label in its family's base unit; fam: "b", "t", "" (unknown/unitless)
@@ -423,6 +424,10 @@ func mkTagFilter(r *rand.Rand, ls labelSpec) tagFilter {
 	}
 	// numeric range
 	fam := []string{"b", "b", "t", ""}[r.Intn(4)]
+	onSeconds := len(ls.seconds) > 0 && r.Intn(2) == 0
+	if onSeconds {
+		fam = "t"
+	}
 	var u string
 	var f int64
 	switch fam {
@@ -439,9 +444,19 @@ func mkTagFilter(r *rand.Rand, ls labelSpec) tagFilter {
 	if u == "b" || u == "ns" {
 		lo, hi = lo*512, hi*512
 	}
+	if onSeconds {
+		u, f = "s", timeF["s"]
+	}
 	if u == "s" {
 		lo = int64(1 + r.Intn(64))
 		hi = lo + int64(r.Intn(8))
+		if onSeconds { // bounds that coincide with label values
+			lo = ls.seconds[r.Intn(len(ls.seconds))]
+			hi = ls.seconds[r.Intn(len(ls.seconds))]
+			if hi < lo {
+				lo, hi = hi, lo
+			}
+		}
 	}
 	form := r.Intn(4)
 	var src string
@@ -538,7 +553,9 @@ func runTags(c *harness.Ctx) harness.Result {
 				if ls.durUnit == "ns" {
 					// whole seconds (and their neighbours) in nanoseconds: values that sit exactly on
 					// the bounds of a range given in a coarser unit
-					s.NumLabel["dur"] = []int64{int64(1+r.Intn(64))*1000000000 + []int64{0, 0, 0, 1, -1}[r.Intn(5)]}
+					k := int64(1 + r.Intn(64))
+					s.NumLabel["dur"] = []int64{k*1000000000 + []int64{0, 0, 0, 1, -1}[r.Intn(5)]}
+					ls.seconds = append(ls.seconds, k)
 				}
 				s.NumUnit["dur"] = []string{ls.durUnit}
 			}
